@@ -326,6 +326,7 @@ type stepIn struct {
 	Limit int64  `json:"limit"` // update: RLIMIT_FSIZE during the call, -1 = none
 	Idx   int    `json:"idx"`   // override: index in the field table
 	Val   val    `json:"val"`   // override
+	Flag  string `json:"flag"`  // override: when set, the override is given as this command-line argument and goes through config.OverrideFromFlags
 }
 
 type fileObs struct {
@@ -710,7 +711,14 @@ func childTxn() {
 			}
 			continue
 		case "override":
-			fs[st.Idx].overwrite(st.Val.reflect(fs[st.Idx].typ))
+			if st.Flag != "" {
+				// the real command-line layer: a fresh flag set, one argument, config.OverrideFromFlags
+				flag.CommandLine = flag.NewFlagSet("reservoir", flag.PanicOnError)
+				os.Args = []string{"reservoir", st.Flag}
+				config.OverrideFromFlags(cfg)
+			} else {
+				fs[st.Idx].overwrite(st.Val.reflect(fs[st.Idx].typ))
+			}
 			obs.Status = 1
 		case "update":
 			var m map[string]any
@@ -1223,9 +1231,34 @@ func (g *gen) genOverride() stepIn {
 		{"webserver.api_disabled", val{K: "b", B: true}}, // without --no-dashboard: no configuration is workable
 		{"proxy.retry_on_range_416", val{K: "b", B: r.Bool()}},
 		{"cache.file.dir", val{K: "s", S: "cachedir/"}},
+		// values equal to the DECLARED DEFAULT of the corresponding command-line flag: still an override
+		{"proxy.listen", val{K: "s", S: ":9999"}},
+		{"webserver.listen", val{K: "s", S: "localhost:8080"}},
+		{"logging.max_backups", val{K: "z", Z: 3}},
+		{"logging.compress", val{K: "b", B: true}},
+		{"logging.compress", val{K: "b", B: false}},
+		{"proxy.ca_cert", val{K: "s", S: "ssl/ca.crt"}},
 	}
 	c := emit.Pick(r, choices)
-	return stepIn{Kind: "override", Idx: g.by[c.path], Val: c.v, Limit: -1}
+	st := stepIn{Kind: "override", Idx: g.by[c.path], Val: c.v, Limit: -1}
+	if name, ok := flagOf[c.path]; ok && r.Chance(60) {
+		switch c.v.K {
+		case "s":
+			st.Flag = "--" + name + "=" + c.v.S
+		case "b":
+			st.Flag = fmt.Sprintf("--%s=%v", name, c.v.B)
+		default:
+			st.Flag = fmt.Sprintf("--%s=%d", name, c.v.Z)
+		}
+	}
+	return st
+}
+
+// command-line flag (config/overrides.go) of a setting, where the flag's value has the setting's own form
+var flagOf = map[string]string{
+	"proxy.listen": "listen", "proxy.ca_cert": "ca-cert", "cache.file.dir": "cache-dir", "webserver.listen": "webserver-listen",
+	"webserver.dashboard_disabled": "no-dashboard", "webserver.api_disabled": "no-api",
+	"logging.max_backups": "log-file-max-backups", "logging.compress": "log-file-compress", "logging.to_stdout": "log-to-stdout",
 }
 
 func (g *gen) limitNear(l0 int64) int64 {
@@ -1346,6 +1379,9 @@ func (g *gen) runHistory(c txnCase) txnResult {
 			sin = fmt.Sprintf("IOverride %d %s", st.Idx, st.Val.coq())
 			rd["override"] = g.fs[st.Idx].path()
 			rd["value"] = st.Val
+			if st.Flag != "" {
+				rd["given_as_command_line_argument"] = st.Flag
+			}
 			if st.Val.K == "s" {
 				strs[st.Val.S] = true
 			}
